@@ -1975,6 +1975,38 @@ func configEvents(fd *ast.FuncDecl) []string {
 	return out
 }
 
+// adminRoutes lists the addRoute / addRouteWithMetrics calls of newAdminHandler in source order:
+// "<pattern>|<handler expression>|<nesting>" where nesting is the number of if/for/switch statements
+// around the call (0 = registered unconditionally, for the local and the remote endpoint alike).
+func adminRoutes(fd *ast.FuncDecl) []string {
+	if fd == nil || fd.Body == nil {
+		return nil
+	}
+	var out []string
+	var walk func(n ast.Node, depth int)
+	walk = func(n ast.Node, depth int) {
+		ast.Inspect(n, func(x ast.Node) bool {
+			if x == n {
+				return true
+			}
+			switch t := x.(type) {
+			case *ast.FuncLit:
+				return false // the bodies of the addRoute helpers themselves
+			case *ast.IfStmt, *ast.ForStmt, *ast.RangeStmt, *ast.SwitchStmt, *ast.TypeSwitchStmt:
+				walk(t, depth+1)
+				return false
+			case *ast.CallExpr:
+				if id, ok := t.Fun.(*ast.Ident); ok && (id.Name == "addRoute" || id.Name == "addRouteWithMetrics") && len(t.Args) == 3 {
+					out = append(out, exprText(t.Args[0])+"|"+exprText(t.Args[2])+"|"+strconv.Itoa(depth))
+				}
+			}
+			return true
+		})
+	}
+	walk(fd.Body, 0)
+	return out
+}
+
 func genConfigLocks() string {
 	_, caddyGo := parseFile("caddy.go")
 	_, adminGo := parseFile("admin.go")
@@ -1987,5 +2019,8 @@ func genConfigLocks() string {
 		"    every assignment to `rawCfgJSON`, `rawCfgIndex` or `rawCfg[…]` (`set:<name>`; function literals walked in place) -/\n" +
 		"def configLocks : List (String × List String) := [\n" +
 		strings.Join([]string{row(caddyGo, "changeConfig"), row(caddyGo, "readConfig"), row(adminGo, "handleConfig"),
-			row(adminGo, "handleConfigID"), row(adminGo, "unsyncedConfigAccess")}, ",\n") + "\n]\n" + footer
+			row(adminGo, "handleConfigID"), row(adminGo, "unsyncedConfigAccess")}, ",\n") + "\n]\n\n" +
+		"/-- admin.go newAdminHandler: every addRoute / addRouteWithMetrics call as `pattern|handler|nesting`\n" +
+		"    (nesting 0 = not inside any if/for/switch: registered for the local and the remote endpoint alike) -/\n" +
+		"def adminRoutes : List String := " + leanStrList(adminRoutes(findFunc(adminGo, "AdminConfig", "newAdminHandler"))) + "\n" + footer
 }
